@@ -415,7 +415,10 @@ def where(body, line=None):
 
 
 CHA_TRAITS = ('dasp_sample::Sample', 'dasp_sample::FloatSample', 'dasp_sample::SignedSample', 'dasp_frame::Frame', 'dasp_sample::conv::ToSample',
-              'dasp_sample::conv::FromSample', 'dasp_sample::conv::Duplex')
+              'dasp_sample::conv::FromSample', 'dasp_sample::conv::Duplex',
+              # the arithmetic of the repository's own sample types (I24 + I24 ...): a generic `a + b` on a Signed companion
+              # reaches these impls (the impls of the primitive types are not repository code and not in the fact base)
+              'core::ops::arith::Add', 'core::ops::arith::Sub', 'core::ops::arith::Mul', 'core::ops::arith::Neg')
 
 
 def callee_closure(facts, roots, crate=None, cha=False):
